@@ -549,6 +549,13 @@ func scriptInflightRing() []Event {
 		d12, d21, prop(1), prop(1))
 }
 
+// scriptFlowHeartbeat: the window towards a cut-off follower fills and stays full; after the
+// partition heals a heartbeat round un-pauses the flow while the window is still full (the
+// leader then sends an empty append to carry the commit index).
+func scriptFlowHeartbeat() []Event {
+	return seq(camp(1), isolate(3), prop(1), prop(1), prop(1), prop(1), prop(1), heal(), tick(1), prop(1), tick(1), prop(1), prop(1))
+}
+
 // scriptFlowSnapshotLeader: a node that joined through a snapshot later becomes
 // leader and streams to a follower that stops acknowledging.
 func scriptFlowSnapshotLeader() []Event {
@@ -908,12 +915,19 @@ func poolConf(tier string) (p pool) {
 		p.dd = append(p.dd, replaceTwoSc(f, k, defaultFaults...))
 		p.dd = append(p.dd, autoLeaveTransferSc(f, k, int(BTick), 1, int(BDrop), 1, int(BDup), 1))
 	}
-	{
-		cl := ddScn("conf-lag", 3, ids(3), asyncF, scriptConfLag(), k, defaultFaults...)
+	for _, f := range []feat{asyncF, asyncPvF} {
+		cl := ddScn("conf-lag", 3, ids(3), f, scriptConfLag(), k, defaultFaults...)
 		cl.ConfMenu = []ConfSpec{{Changes: "l1"}, {Changes: "l2"}}
 		p.dd = append(p.dd, cl)
 	}
-	for _, f := range []feat{syncF, asyncF} {
+	{
+		// a lagging application with PreVote: node 2's apply thread is stalled while the removal of
+		// node 3 commits; node 2 is then asked to campaign (the pre-election path)
+		cl := ddScn("conf-lag-prevote", 3, ids(3), asyncPvF, seq(camp(1), prop(1), pauseApply(2, 1), conf(1, 0), prop(1), isolate(1), camp(2), prop(2), camp(2), pauseApply(2, 0), prop(2), camp(2), prop(2), heal(), prop(2)), k, defaultFaults...)
+		cl.ConfMenu = []ConfSpec{{Changes: "r3"}}
+		p.dd = append(p.dd, cl)
+	}
+	for _, f := range []feat{syncF, asyncF, pvF} {
 		p.dd = append(p.dd, confSc("mixed-batch", f, scriptMixedBatch(), k, defaultFaults...))
 		bt := confSc("batch-then-conf", f, scriptBatchThenConf(), k, defaultFaults...)
 		c := f.cfg()
@@ -981,6 +995,13 @@ func poolFlow(tier string) (p pool) {
 			s.PropSizes = []int{4, 12, 4, 30, 4, 4, 12, 4, 4, 30, 4, 4, 4, 4, 4}
 			s.UnreachPairs = [][2]uint8{{1, 2}}
 			s.Budget[BUnreach] = 1
+			p.dd = append(p.dd, s)
+		}
+		for vi, c := range []NodeCfg{flowCfg(f, 2, 1, 0, 0), flowCfg(f, 3, 40, 60, 0)} {
+			c.ElectionTick, c.HeartbeatTick, c.Timeout = 10, 1, 10
+			s := ddScn(fmt.Sprintf("flow-heartbeat%d", vi), 3, ids(3), f, scriptFlowHeartbeat(), k, defaultFaults...)
+			s.Cfg = []NodeCfg{c}
+			s.PropSizes = []int{4, 12, 4, 30, 4, 4, 12, 4, 4}
 			p.dd = append(p.dd, s)
 		}
 		// uncommitted-size quota with a partially committed tail
@@ -1120,6 +1141,8 @@ func Jobs(prop, tier string) []*Job {
 	switch prop {
 	case "ALL":
 		add(poolAll(tier), allMonitors...)
+	case "APIALL": // development aid: every monitor over the API-order scenarios
+		add(poolAPI(tier), allMonitors...)
 	case "C01":
 		add(poolSafety(tier), prop)
 		add(poolSnapshot(tier), prop)
@@ -1250,6 +1273,42 @@ func Jobs(prop, tier string) []*Job {
 		add(poolFlow(tier), prop)
 		add(pool{dd: poolConf(tier).dd}, prop)
 		addNode()
+	}
+	// thorough tier: the API-order scenarios (every local operation once, in every order,
+	// interleaved with deliveries, from six roots) are explored under the property's own monitors too
+	if tier == "thorough" && len(jobs) > 0 {
+		switch prop {
+		case "C01", "C02", "C03", "C04", "C05", "C06", "C07", "C08", "C09", "C10", "C11", "C16", "C17", "C20":
+			var mons []string
+			for _, j := range jobs {
+				if j.Strategy != "nodex" {
+					mons = j.Mons
+					break
+				}
+			}
+			for _, sc := range poolAPI(tier).bfs {
+				jobs = append(jobs, job(prop, tier, "bfs", sc, 1, mons...))
+			}
+		}
+	}
+	// thorough tier: every scripted scenario that runs without PreVote is run with PreVote as well
+	// (elections then go through the pre-election path)
+	if tier == "thorough" && prop != "C19" {
+		n0 := len(jobs)
+		for _, j := range jobs[:n0] {
+			if j.Strategy != "ddfs" || j.Sc.cfg(0).PreVote || j.Sc.NoClone {
+				continue
+			}
+			sc := *j.Sc
+			sc.Cfg = append([]NodeCfg(nil), j.Sc.Cfg...)
+			for k := range sc.Cfg {
+				sc.Cfg[k].PreVote = true
+			}
+			sc.Name = j.Sc.Name + "+prevote"
+			nj := *j
+			nj.Sc, nj.Name = &sc, sc.Name
+			jobs = append(jobs, &nj)
+		}
 	}
 	for i, j := range jobs {
 		j.Index = i
